@@ -77,7 +77,7 @@ func hexList(x [][]byte) []string {
 func TestCheck(t *testing.T) {
 	r := vf.Start(t, "C32", vf.Exploration)
 	defer r.Finish()
-	r.SetRule("(a) session id: all ordered pairs of a seeded pool of key-derived peer ids (Ed25519): id(a,b) must equal id(b,a), and distinct unordered pairs must give distinct ids (map over everything explored; sampled collision-freeness). (b) FindMatchingHashes: PRNG pairs of SORTED lists of 0..40 hashes drawn from a per-case alphabet of <= 12 hashes (forces duplicates and shared elements; alphabets of 32-byte hashes, and of mixed-length hashes incl. prefixes of each other); result must equal the reference multiset intersection (count = min of counts, sorted); after the call every byte of both inputs is overwritten and the result must be unchanged (no aliasing). Non-trivial = session pair with a != b, or list pair with at least one shared element; distinct = distinct inputs")
+	r.SetRule("(a) session id: all ordered pairs of a seeded pool of key-derived peer ids (Ed25519): id(a,b) must equal id(b,a), and distinct unordered pairs must give distinct ids (map over everything explored; sampled collision-freeness). (a2) symmetry id(a,b) == id(b,a) and determinism also over all ordered pairs of ARBITRARY peer-id strings (lengths 0..300, multihash-shaped ids of other key lengths, every prefix of an id, extensions, ids sharing a prefix, small-alphabet strings, mixed with key-derived ids); distinctness is not demanded there (arbitrary strings can collide across the concatenation boundary), coincidences are counted only. (b) FindMatchingHashes: PRNG pairs of SORTED lists of 0..40 hashes drawn from a per-case alphabet of <= 12 hashes (forces duplicates and shared elements; alphabets of 32-byte hashes, and of mixed-length hashes incl. prefixes of each other); result must equal the reference multiset intersection (count = min of counts, sorted); after the call every byte of both inputs is overwritten and the result must be unchanged (no aliasing). Non-trivial = session pair with a != b, or list pair with at least one shared element; distinct = distinct inputs")
 
 	// ---- (a) session ids
 	rng := r.Rand("c32-session")
@@ -120,6 +120,129 @@ func TestCheck(t *testing.T) {
 	}
 	r.Extra("distinct_session_ids", len(seen))
 	r.Extra("peer_pool", len(ids))
+
+	// ---- (a2) session ids of arbitrary peer-id strings: symmetry only.
+	// peer.ID is a string type; ids of other key types / malformed ids have other
+	// lengths than the 38 bytes of an Ed25519-derived id. Whichever side computes
+	// the id must get the same bytes for ANY two id strings (mixed lengths, one a
+	// prefix of the other, empty, shared long prefixes). Distinctness is NOT
+	// demanded here (arbitrary strings can collide across the concatenation
+	// boundary: ("ab","c") / ("a","bc")); coincidences are only counted.
+	arng := r.Rand("c32-session-arbitrary")
+	var arb []peer.ID
+	addArb := func(b []byte) { arb = append(arb, peer.ID(string(b))) }
+	rb := func(n int) []byte {
+		b := make([]byte, n)
+		for i := range b {
+			b[i] = byte(arng.UintN(256))
+		}
+		return b
+	}
+	addArb(nil)
+	for _, l := range []int{1, 2, 3, 7, 8, 31, 32, 33, 34, 37, 38, 39, 40, 63, 64, 65, 127, 128, 129, 300} {
+		addArb(rb(l))
+	}
+	// multihash-shaped ids of other lengths: sha2-256 multihash (34 bytes, ids of
+	// long keys), identity multihash of a 32 / 36 / 270 byte key encoding
+	addArb(append([]byte{0x12, 0x20}, rb(32)...))
+	addArb(append([]byte{0x00, 0x20}, rb(32)...))
+	addArb(append([]byte{0x00, 0x24}, rb(36)...))
+	addArb(append([]byte{0x00, 0x8e, 0x02}, rb(270)...))
+	// prefix chains: every prefix of a key-derived id and of a PRNG string;
+	// extensions of a key-derived id
+	kid := []byte(ids[0])
+	for l := 0; l <= len(kid); l += 1 + arng.IntN(6) {
+		addArb(kid[:l])
+	}
+	for k := 1; k <= 3; k++ {
+		addArb(append(append([]byte(nil), kid...), rb(k*k)...))
+	}
+	base := rb(24)
+	for l := 1; l <= len(base); l += 1 + arng.IntN(4) {
+		addArb(base[:l])
+	}
+	// small alphabet: many pairs where one id is a prefix of the other, or that
+	// share their concatenation
+	for _, x := range []string{"a", "b", "ab", "ba", "abc", "aa", "aaa", "aaaa", "\x00", "\x00\x00", "a\x00", "\xff", "\xff\xff", "\xfe\xff"} {
+		addArb([]byte(x))
+	}
+	for k := 0; k < r.N(20, 200); k++ {
+		// PRNG: a random-length string, and a sibling sharing a random-length prefix
+		x := rb(arng.IntN(80))
+		addArb(x)
+		cut := 0
+		if len(x) > 0 {
+			cut = arng.IntN(len(x) + 1)
+		}
+		addArb(append(append([]byte(nil), x[:cut]...), rb(arng.IntN(40))...))
+	}
+	// a few key-derived ids take part as well (mixed with the arbitrary ones)
+	for i := 0; i < 4 && i < len(ids); i++ {
+		arb = append(arb, ids[i])
+	}
+	{
+		uniq := map[peer.ID]struct{}{}
+		out := arb[:0]
+		for _, x := range arb {
+			if _, ok := uniq[x]; !ok {
+				uniq[x] = struct{}{}
+				out = append(out, x)
+			}
+		}
+		arb = out
+	}
+	r.Begin(fmt.Sprintf("session ids over %d arbitrary peer-id strings (all ordered pairs)", len(arb)))
+	aseen := map[string][2]string{}
+	var mixedLen, prefixPairs, arbColl int
+	for i := range arb {
+		for j := range arb {
+			a, b := arb[i], arb[j]
+			var s1, s2, s3 []byte
+			if pk, pd := vf.Try(func() {
+				s1 = link_solicit.ComputeSessionID(a, b)
+				s2 = link_solicit.ComputeSessionID(b, a)
+				s3 = link_solicit.ComputeSessionID(a, b)
+			}); pk {
+				r.Violation("ComputeSessionID/panic", "panicked: "+pd, map[string]any{"a_hex": vf.Hex([]byte(a)), "b_hex": vf.Hex([]byte(b))})
+				continue
+			}
+			r.Case(fmt.Sprintf("sid-arb|%x|%x", string(a), string(b)), a != b)
+			r.Count("session_ids_computed_arbitrary_ids", 3)
+			isPrefix := a != b && (strings.HasPrefix(string(a), string(b)) || strings.HasPrefix(string(b), string(a)))
+			if len(a) != len(b) {
+				mixedLen++
+			}
+			if isPrefix {
+				prefixPairs++
+			}
+			w := map[string]any{"a_hex": vf.Hex([]byte(a)), "b_hex": vf.Hex([]byte(b)), "a_len": len(a), "b_len": len(b), "ab": vf.Hex(s1), "ba": vf.Hex(s2)}
+			if !bytes.Equal(s1, s2) {
+				cls := "equal-length"
+				switch {
+				case isPrefix:
+					cls = "one-id-prefix-of-the-other"
+				case len(a) != len(b):
+					cls = "different-lengths"
+				}
+				r.Violation("ComputeSessionID/asymmetric/"+cls, "session id depends on which side computes it (argument order)", w)
+			}
+			if !bytes.Equal(s1, s3) {
+				r.Violation("ComputeSessionID/nondeterministic", "the same call gave two different session ids", w)
+			}
+			lo, hi := string(a), string(b)
+			if lo > hi {
+				lo, hi = hi, lo
+			}
+			if prev, ok := aseen[string(s1)]; ok && prev != [2]string{lo, hi} {
+				arbColl++ // not demanded for arbitrary strings (documented), counted only
+			}
+			aseen[string(s1)] = [2]string{lo, hi}
+		}
+	}
+	r.Count("session_pairs_arbitrary_mixed_length", mixedLen)
+	r.Count("session_pairs_arbitrary_one_prefix_of_other", prefixPairs)
+	r.Count("session_id_coincidences_arbitrary_ids_not_flagged", arbColl)
+	r.Extra("arbitrary_peer_id_strings", len(arb))
 
 	// ---- (b) intersection
 	rng = r.Rand("c32-merge")
